@@ -17,6 +17,21 @@
 (* (conditional fields only in every 4th schema, else the plain kinds) = t.Union, *)
 (* functions t.call <shape> = t.Main, t.callu x:int = t.Union,                   *)
 (* t.calls = t.Sum.  Constructor ids are TlSem!ConstructorId of the text.        *)
+(*                                                                               *)
+(* Family F (shape numbers FBase + i): a conditional field of a type held in a   *)
+(* slice -- mode.N?bytes, mode.N?string, mode.N?(vector int), mode.N?(vector     *)
+(* t.inner) -- with a field after it (first, and in the middle).  In every 4th   *)
+(* vector whose flag bit is set the field's value is EMPTY: the schema then      *)
+(* still requires the field on the wire (four zero bytes).  Such a vector also   *)
+(* carries `wrong`: the bytes with the empty field left out, which TlSem!Dec     *)
+(* must not read back as the value (checked here; fed to the judges as canary).  *)
+(* The driver marshals every value twice, empty slices as nil and as non-nil.    *)
+(*                                                                               *)
+(* Family L (shape numbers LBase + i): a vector longer than what a decoder may   *)
+(* want to allocate up front -- lengths on both sides of 64 KiB / (element size  *)
+(* in memory + 1) for int, long, int256, t.inner, Bool, bytes elements -- with a *)
+(* field after it, and as the last field.  Vectors: t.main with the two lengths, *)
+(* and t.call whose answer carries the longer one.                               *)
 EXTENDS TlGen
 CONSTANTS Seed, Ns, PerSchema       \* Ns: the set of shape numbers this run emits
 
@@ -32,7 +47,28 @@ Alphabet == [i \in 1..Len(Plain) |-> [ty |-> Plain[i], bit |-> -1]]
                [ty |-> FlagTys[((i - 1) \div Len(FlagBits)) + 1], bit |-> FlagBits[((i - 1) % Len(FlagBits)) + 1]]]
 NA == Len(Alphabet)
 
+P(ty) == [ty |-> ty, bit |-> -1]
+\* ---- family F: i = type * 2 + position
+FBase  == 9000000
+FTys   == <<"bytes", "string", V("int"), V("t.inner")>>
+FCount == 2 * Len(FTys)
+IsF(n) == n >= FBase /\ n < FBase + FCount
+FTy(i) == FTys[(i \div 2) + 1]
+FShape(i) == IF i % 2 = 0 THEN <<[ty |-> FTy(i), bit |-> 0], P("int")>>
+             ELSE <<P("long"), [ty |-> FTy(i), bit |-> 31], P("int")>>
+FField(i) == IF i % 2 = 0 THEN "f1" ELSE "f2"
+\* ---- family L: i = element type * 2 + position
+LBase  == 9100000
+LTys   == <<"int", "long", "int256", "t.inner", "Bool", "bytes">>
+LLim   == <<13107, 7281, 1985, 1985, 32768, 2621>>       \* 65536 \div (element size in memory + 1)
+LCount == 2 * Len(LTys)
+IsL(n) == n >= LBase /\ n < LBase + LCount
+LShape(i) == IF i % 2 = 0 THEN <<P(V(LTys[(i \div 2) + 1])), P("int")>> ELSE <<P("long"), P(V(LTys[(i \div 2) + 1]))>>
+LField(i) == IF i % 2 = 0 THEN "f1" ELSE "f2"
+
 Shape(n) == IF n < NA THEN <<Alphabet[n + 1]>>
+            ELSE IF IsF(n) THEN FShape(n - FBase)
+            ELSE IF IsL(n) THEN LShape(n - LBase)
             ELSE LET ctx == B4(Seed) \o B4(n) \o <<77>>
                      len == 2 + Pick(ctx, 3)
                  IN [i \in 1..len |-> Alphabet[Pick(ctx \o <<i>>, NA) + 1]]
@@ -92,12 +128,47 @@ Targets == <<T("t.main", "Enc"), T("t.main", "Enc"), T("t.main", "Enc"), T("t.ma
              T("t.Sum", "Enc"), T("t.inner", "Enc"), T("t.callu", "Call"), T("t.calls", "Call"), T("t.callu", "Fn")>>
 NT == Len(Targets)
 
+\* family F: vector x of t.main / t.call with the conditional field (present: bit set) emptied; t.main Enc vectors get `wrong`
+FieldIdx(d, name) == CHOOSE i \in 1..Len(d.fields) : d.fields[i].name = name
+Emptied(S, n, x) ==
+  LET fld == FField(n - FBase)
+      v2  == [x.v EXCEPT ![fld] = IF IsVec(FTy(n - FBase)) THEN <<>> ELSE ""]
+      hx  == IF x.op = "EncBare" THEN EncBare(S, x.ty, v2) ELSE Enc(S, x.ty, v2)
+      y   == [x EXCEPT !.v = v2, !.hex = BytesToHex(hx)]
+      d   == CtorDecl(S, "t.main")
+      tl  == EncFields(S, d, v2, FieldIdx(d, fld) + 1)
+  IN IF x.ty = "t.main" /\ x.op = "Enc"
+       THEN y @@ [wrong |-> BytesToHex(SubSeq(hx, 1, Len(hx) - Len(tl) - 4) \o tl), emptied |-> TRUE]
+       ELSE y @@ [emptied |-> TRUE]
+FVec(S, n, j) ==
+  LET x == VecOf(S, Targets[((j - 1) % NT) + 1], j - 1, B4(Seed) \o B4(n) \o B4(j), j - 1) IN
+  IF j % 4 = 2 /\ x.ty \in {"t.main", "t.call"} /\ FField(n - FBase) \in DOMAIN x.v THEN Emptied(S, n, x) ELSE x
+FSane(S, vs) ==
+  /\ \E j \in 1..Len(vs) : "wrong" \in DOMAIN vs[j]
+  /\ \E j \in 1..Len(vs) : "emptied" \in DOMAIN vs[j] /\ vs[j].op = "Call"
+  /\ \A j \in 1..Len(vs) : "wrong" \in DOMAIN vs[j] =>
+        LET dd == Dec(S, vs[j].ty, HexToBytes(vs[j].wrong)) IN ~(dd.ok /\ dd.value = vs[j].v /\ dd.rest = <<>>)
+\* family L: the vector in Main's field gets exactly the given length (also in the answer of t.call)
+LVecs(S, n) ==
+  LET i   == n - LBase
+      lim == LLim[(i \div 2) + 1]
+      ov(len) == [decl |-> "t.main", field |-> LField(i), n |-> len]
+  IN <<VecOfOv(S, T("t.main", "Enc"), 0, B4(Seed) \o B4(n) \o B4(1), 0, ov(lim)),
+       VecOfOv(S, T("t.main", "Enc"), 1, B4(Seed) \o B4(n) \o B4(2), 1, ov(lim + 1)),
+       VecOfOv(S, T("t.call", "Call"), 2, B4(Seed) \o B4(n) \o B4(3), 0, ov(lim + 1))>>
+LSane(n, vs) == LET i == n - LBase  lim == LLim[(i \div 2) + 1] IN
+  Len(vs[1].v[LField(i)]) = lim /\ Len(vs[2].v[LField(i)]) = lim + 1 /\ ~vs[3].is_err /\ Len(vs[3].resv[LField(i)]) = lim + 1
+
 Out(n) ==
   LET S == SchemaOf(n)
-      vs == [j \in 1..PerSchema |-> VecOf(S, Targets[((j - 1) % NT) + 1], j - 1, B4(Seed) \o B4(n) \o B4(j), j - 1)]
+      vs == IF IsL(n) THEN LVecs(S, n)
+            ELSE IF IsF(n) THEN [j \in 1..PerSchema |-> FVec(S, n, j)]
+            ELSE [j \in 1..PerSchema |-> VecOf(S, Targets[((j - 1) % NT) + 1], j - 1, B4(Seed) \o B4(n) \o B4(j), j - 1)]
   IN [schema |-> n, ast |-> S, kinds |-> [i \in 1..Len(Shape(n)) |-> KindLabel(Shape(n)[i])],
       sumctor_conditional |-> UnionFlags(n) /\ HasFlagged(Shape(n)), vecs |-> vs,
-      sane |-> \A j \in 1..PerSchema : VecSane(S, vs[j])]
+      sane |-> /\ \A j \in 1..Len(vs) : VecSane(S, vs[j])
+               /\ (IsF(n) => FSane(S, vs))
+               /\ (IsL(n) => LSane(n, vs))]
 
 Init == k \in Ns                    \* one initial state per shape; nothing else happens
 Next == UNCHANGED k
